@@ -26,7 +26,7 @@ ENGINE_KIND = {
 
 CHECKS["C18"] = dict(
     engine="hash", flavour="asan", level="exploration", gen=gen_hash,
-    sources=["engines/hash/main.cpp", "engines/hash/lean_endian.cpp"], flags=["-fno-sanitize=shift-base"],
+    sources=["engines/hash/main.cpp", "engines/hash/lean_endian.cpp", "engines/hash/early_endian.cpp"], flags=["-fno-sanitize=shift-base"],
     rule=("cases = (byte string, k0, k1) triples through SipHash::Compute over BlockReader<uint8_t/char/int8_t> compared with an "
           "independent SipHash-2-4 (every length 0..1100 at least once, random and extreme keys, 7-bit / random / 0x00 / 0x80 / 0xff contents), plus "
           "generated NOP_TABLE_NS tables, NOP_INTERFACE/NOP_INTERFACE32 interfaces with NOP_METHOD selectors and constexpr literals whose "
@@ -43,15 +43,15 @@ CHECKS["C18"] = dict(
 
 CHECKS["C20"] = dict(
     engine="hash", flavour={"quick": "asan", "thorough": "plain"}, level="exploration", gen=gen_hash,
-    sources=["engines/hash/main.cpp", "engines/hash/lean_endian.cpp"], flags=["-fno-sanitize=shift-base"],
+    sources=["engines/hash/main.cpp", "engines/hash/lean_endian.cpp", "engines/hash/early_endian.cpp"], flags=["-fno-sanitize=shift-base"],
     rule=("cases = values x of int8..int64, uint8..uint64, float, double; FromLittle/ToLittle/FromBig/ToBig and the To∘From compositions are compared by bit "
           "pattern with an independent memcpy byte reversal selected by a run-time endianness probe. 8/16-bit: all values; 32-bit: 2^24 strided "
           "values per type (quick) or all 2^32 bit patterns (thorough); all widths >= 32: every byte-lane value, walking ones/zeros, boundaries, NaN classes; "
           "64-bit: 2^20 / 2^26 random incl. NaN payloads. Also every distinct integral type of the ABI (long long, unsigned long long, char, wchar_t, char16_t, char32_t), and the "
-          "same conversions compiled in a lean translation unit that includes the library header first (include-order independence). distinct = enumerated values (disjoint by construction) + hashed patterns; "
+          "same conversions compiled in a lean translation unit that includes the library header first (include-order independence), and conversions made during static initialisation by an early-initialised global of another translation unit. distinct = enumerated values (disjoint by construction) + hashed patterns; "
           "non-trivial = byte reversal changes the value."),
     floor={"quick": 100000, "thorough": 1000000},
-    require_counters=["c20_values_checked", "c20_lean_translation_unit_values"],
+    require_counters=["c20_values_checked", "c20_lean_translation_unit_values", "c20_static_initialisation_values"],
     exhaustive_counter="c20_exhaustive_32bit_values",
     technique="runtime value oracle (independent byte reversal), exhaustive sweeps for <= 32 bit in thorough, ASan/UBSan in quick",
     level_text="exploration, exhaustive where feasible: all 8/16-bit values always, all 2^32 bit patterns of int32/uint32/float in the thorough tier, byte-lane/boundary/NaN-payload/random coverage for 64-bit; every value is decided exactly by an independent memcpy byte reversal.",
